@@ -243,7 +243,9 @@ PROPS = {
                 "to a live or unused id, get-client-info and invitation addressed to an id, and fast-forward of the production client registry "
                 "by {1,100,30000,65000,65530,65536,70000} add/delete cycles, and idling for {50 s, 295 s, 311 s, 10 min} of fake time with the production "
                 "keep-alive loop running (users become away after 300 s and wake up with their next request: both must reach every roster); TestC13Wrap keeps two users connected, moves the counter to 10 before "
-                "the 16-bit wrap and continues; every client folds the 301/302 notifications it receives into the user list it fetched; after "
+                "the 16-bit wrap and continues; TestC13SchedPoint owns one schedule point: an observer fetches the user list on the server's goroutine immediately "
+                "before or after the registry Add/Delete of a user who joins, closes or is kicked (1-3 other users, observer with or without an earlier "
+                "list), and must converge once everything settled; every client folds the 301/302 notifications it receives into the user list it fetched; after "
                 "every step: registry size == live connections, ids distinct, each folded roster == fresh user list restricted to completed "
                 "logins (id, name, icon, flags as integers), id-addressed requests reach exactly the holder, refuse-messages and auto-reply "
                 "honoured; non-trivial = a change or departure after another client fetched its list; distinct = hash(history)",
@@ -252,10 +254,12 @@ PROPS = {
                         "known finding away-clear-reorder: an away user's first request is a non-notifying one in TestC13 (excluded, counted); the excluded class is decided by TestC13AwayReorder"],
         "quick": {"runs": [{"test": "^TestC13$", "shards": 12, "checks": 60, "timeout": 900},
                            {"test": "^TestC13Wrap$", "shards": 3, "checks": 25, "timeout": 900},
-                           {"test": "^TestC13AwayReorder$", "shards": 1, "checks": 40, "timeout": 900}]},
+                           {"test": "^TestC13AwayReorder$", "shards": 1, "checks": 40, "timeout": 900},
+                           {"test": "^TestC13SchedPoint$", "shards": 1, "checks": 150, "timeout": 900}]},
         "thorough": {"runs": [{"test": "^TestC13$", "shards": 11, "checks": 2000, "timeout": 3400},
                               {"test": "^TestC13Wrap$", "shards": 3, "checks": 500, "timeout": 3400},
-                              {"test": "^TestC13AwayReorder$", "shards": 2, "checks": 1500, "timeout": 3400}]},
+                              {"test": "^TestC13AwayReorder$", "shards": 1, "checks": 1500, "timeout": 3400},
+                              {"test": "^TestC13SchedPoint$", "shards": 1, "checks": 5000, "timeout": 3400}]},
     },
     "C17": {
         "title": "Disconnects and bans are enforced at the door",
